@@ -67,8 +67,11 @@ impl Display for UnaryOp {
 }
 
 impl BinOp {
-    fn eval(&self, left: i64, right: i64) -> i64 {
-        match self {
+    fn eval(&self, left: i64, right: i64) -> Result<i64, ExprError> {
+        if right == 0 && matches!(self, Self::Divide | Self::Reminder) {
+            return Err(ExprErrorKind::DivisionByZero.into());
+        }
+        Ok(match self {
             Self::Equal => (left == right) as i64,
             Self::NotEqual => (left != right) as i64,
             Self::GreaterThan => (left > right) as i64,
@@ -85,7 +88,7 @@ impl BinOp {
             Self::Times => left.wrapping_mul(right),
             Self::Divide => left.wrapping_div(right),
             Self::Reminder => left.wrapping_rem(right),
-        }
+        })
     }
 }
 
@@ -208,7 +211,7 @@ impl Expr {
                 }
             }
             Self::UnaryOp { op, expr } => Ok(op.eval(expr.eval(ctx)?)),
-            Self::BinOp { op, left, right } => Ok(op.eval(left.eval(ctx)?, right.eval(ctx)?)),
+            Self::BinOp { op, left, right } => op.eval(left.eval(ctx)?, right.eval(ctx)?),
             Self::Func { name, args } => {
                 let entry = FUNC_TABLE
                     .get(name)
